@@ -93,3 +93,28 @@ func vH_C19_report_queue_never_drops() {
 	}
 	vReach("C19.queue.end")
 }
+
+// An upload is attributed to its stream by stream.id(): two uploads share an entry of the stream table exactly when
+// they belong to the same channel and the same track - also for nested channel names that share their last path
+// element, and for a track name that equals part of a channel name.
+func init() {
+	vHarnesses["vH_C19_stream_ids_distinct"] = vH_C19_stream_ids_distinct
+}
+
+var vC19ChNames = [4]string{"live", "east/live", "west/live", "east"}
+var vC19TrNames = [3]string{"video", "audio", "live"}
+
+func vH_C19_stream_ids_distinct() {
+	c1 := vConc(vInt("ch1", 0, 3))
+	c2 := vConc(vInt("ch2", 0, 3))
+	t1 := vConc(vInt("tr1", 0, 2))
+	t2 := vConc(vInt("tr2", 0, 2))
+	mk := func(c, t int) stream {
+		ch, tr := vC19ChNames[c], vC19TrNames[t]
+		return stream{chName: ch, trName: tr, ext: ".cmfv", mediaType: "video", chDir: "/storage/" + ch, trDir: "/storage/" + ch + "/" + tr}
+	}
+	s1, s2 := mk(c1, t1), mk(c2, t2)
+	same := c1 == c2 && t1 == t2
+	vAssert("C19.streamid.same-entry-iff-same-channel-and-track", (s1.id() == s2.id()) == same)
+	vReach("C19.streamid.end")
+}
